@@ -551,6 +551,34 @@ def run(ctx):
     else:
         ctx.fail("C11.R4", "retrieve", rt.file, rt.node.lineno, rt.qual,
                  "retrieve() no longer builds pconn/sconn from the 7 slots in order")
+    # the shared record builder of the other platforms: the system-wide form
+    # (sconn, with the owner) is chosen by `pid is not None` - PID 0 owns sockets on
+    # Windows (System Idle Process) and the BSDs, so truthiness is not the test
+    cn = repo.func("_common", "conn_to_ntuple")
+    ccfg_ = A.cfg(cn)
+    cparams = [a.arg for a in cn.node.args.args + cn.node.args.kwonlyargs]
+    pidp = "pid" if "pid" in cparams else (cparams[-1] if cparams else "pid")
+    okc, nrec_ = True, 0
+    whyc = ""
+    for c in calls_in(cn.node):
+        nm_ = (dotted(c.func) or "").split(".")[-1]
+        if nm_ not in ("pconn", "sconn"):
+            continue
+        nrec_ += 1
+        for n in ccfg_.owners(c):
+            fs = facts(ccfg_, n)
+            want = ("isnone", pidp, nm_ == "pconn")
+            if want not in fs:
+                okc = False
+                whyc = (f"{nm_}(...) is chosen by {[f for f in fs if pidp in str(f)] or 'no test'} "
+                        f"instead of `{pidp} is{'' if nm_ == 'pconn' else ' not'} None`")
+    if okc and nrec_ >= 2:
+        ctx.ok("C11.R4", "conn_to_ntuple:owner", sample="pconn iff pid is None; sconn carries pid "
+                                                        "(0 included)")
+    else:
+        ctx.fail("C11.R4", "conn_to_ntuple:owner", cn.file, cn.node.lineno, cn.qual,
+                 f"conn_to_ntuple(): {whyc or 'pconn/sconn construction vanished'}: a socket "
+                 f"held by PID 0 loses its owner in the system-wide listing")
     # inode collection (def-use, independent of variable names)
     gi = repo.func(pm, "NetConnections.get_proc_inodes")
     gparams = [a.arg for a in gi.node.args.args]
